@@ -163,3 +163,36 @@ def synth_valid(modname, k=40, seed=0):
             pass
     _SYNTH[key] = out
     return out
+
+
+def registry_gaps(modname, k=12):
+    """inputs that fall into the gaps of a hierarchical registry: a top-level prefix that the registry subdivides, followed by a
+    sub-block that is not assigned (MAC addresses: OUIs with 28- and 36-bit sub-assignments).  Bounded stand-ins only."""
+    if modname != 'stdnum.mac':
+        return []
+    import stdnum.numdb as numdb
+    out = []
+    try:
+        db = numdb.get('oui')
+    except Exception:     # noqa: B902
+        return out
+    for length, low, high, props, children in db.prefixes:
+        if not children or low != high:
+            continue
+        used = set()
+        clen = None
+        for l2, lo2, hi2, p2, ch2 in children:
+            clen = l2
+            try:
+                used.update(range(int(lo2, 16), int(hi2, 16) + 1))
+            except ValueError:
+                continue
+        if not clen:
+            continue
+        free = [v for v in (16 ** clen - 1, 0, 16 ** clen // 2) if v not in used]
+        for v in free[:1]:
+            digits = (low + ('%0' + str(clen) + 'X') % v).ljust(12, '0')[:12]
+            out.append(':'.join(digits[i:i + 2] for i in range(0, 12, 2)))
+        if len(out) >= k:
+            break
+    return out
